@@ -178,10 +178,18 @@ Section Adjoints.
       dots (map snd gxs') dxs = radd (dots gxds dxs) (dots [gy] (d_jvp (desc (OBatchConcat shs sy)) xv dxs)).
   Proof. exact (adjoint_BatchConcat rO rI radd rmul rsub ropp Rth xs ys sy gy shs xv dxs gxds). Qed.
 End Adjoints.
-Print Assumptions C01_bw_adjoint_Concat.
-Print Assumptions C01_bw_adjoint_Split.
-Print Assumptions C01_bw_adjoint_Sum.
+Print Assumptions C01_bw_adjoint_Positive.
+Print Assumptions C01_bw_adjoint_Copy.
 Print Assumptions C01_bw_adjoint_Negative.
+Print Assumptions C01_bw_adjoint_Reshape.
+Print Assumptions C01_bw_adjoint_Flatten.
+Print Assumptions C01_bw_adjoint_Sum.
+Print Assumptions C01_bw_adjoint_Broadcast.
+Print Assumptions C01_bw_adjoint_BatchSum.
+Print Assumptions C01_bw_adjoint_Split.
+Print Assumptions C01_bw_adjoint_BatchSplit.
+Print Assumptions C01_bw_adjoint_Concat.
+Print Assumptions C01_bw_adjoint_BatchConcat.
 
 (* ------------------------------------------------------------------ non-vacuity of (4) *)
 Definition ex_s22 := mkT [2; 2] 1.  Definition ex_s42 := mkT [4; 2] 1.  Definition ex_s12 := mkT [1; 2] 1.
